@@ -113,7 +113,10 @@ PROPS['C08'] = {
 }
 
 PROPS['C18'] = {
-    'sidecars': ['contracts/C18_stack.py'],
+    'sidecars': ['contracts/C18_stack.py', 'contracts/C18_init.py'],
+    # separate registries: the helper contracts of C18_stack.py see YowStack.__init__ as one opaque constructor event, C18_init.py puts that
+    # constructor itself under contract (and sees _construct as one event)
+    'sidecar_groups': [['contracts/C18_stack.py'], ['contracts/C18_init.py']],
     'level': 'other',
     'explanation': 'Proved (no bound): the default helpers getCoreLayers / getProtocolLayers / getDefaultLayers / getDefaultStack for all 32 '
                    'flag combinations x with/without a top layer (layer order, exactly the selected optional modules, call-binding safety), '
@@ -125,14 +128,17 @@ PROPS['C18'] = {
                    'instance per entry in entry order, each told its stack once, each wired once to the instance directly above and '
                    'directly below, None at the two ends; WHICH object an entry becomes - the instance itself, a new instance of the class, '
                    'a group for a tuple - rests on inspect.isclass / issubclass / the call of the entry and is left unconstrained). '
+                   'The constructor YowStack.__init__ (own sidecar): the given sequence is read bottom-first as it is, or reversed '
+                   'element by element when reversed=True, and the assembly step runs exactly once, on an empty instance list. '
                    'Bounded stand-in (labelled bounded): what _construct makes of each entry, YowParallelLayer method substitution / '
                    'getLayerInterface and the event walk through whole assembled stacks, on all shapes up to depth 3-4 plus random '
                    'shapes to depth 6 with groups of 1-4, four construction conventions, every consumer position, detached and normal.',
     'native_checks': [{'name': 'c18_stack_shapes', 'cmd': ['bounded/stack_check.py'],
                        'bound': 'quick: 340 shapes (depth<=3 exhaustive over widths {plain,1,2,4}) + 20 random to depth 6, x4 conventions, '
                                 'x every consumer level x detached/normal; 32 default-stack flag combinations with real layers'}],
-    'assumptions': ['YowStack.__init__ and YowParallelLayer.__init__ are opaque constructor events in the helper contracts (that __init__ '
-                    'calls _construct on the given sequence is covered by the bounded stand-in only)',
+    'assumptions': ['YowStack.__init__ and YowParallelLayer.__init__ are opaque constructor events in the helper contracts; __init__ and '
+                    '_construct are each verified against their own contract, the composition (what _construct leaves is what send / receive / '
+                    'emitEvent later find) is covered by the bounded stand-in',
                     'inspect.isclass, issubclass on a value of unknown class and the call of a stack entry are opaque: unconstrained answers, '
                     'the call returns some object and may raise anything (propagated)',
                     'setStack / setLayers of the instances are opaque events (YowLayer.setLayers is two assignments; the link frame scan of '
